@@ -439,6 +439,11 @@ func (u *Upgrader) Upgrade(w http.ResponseWriter, r *http.Request, responseHeade
 				wsc.isBlockingMod = true
 				getParser()
 				if parser != nil {
+					// the limits and allocators of the engine that serves the
+					// connection apply, as on the poller paths.
+					if parser.Engine != nil {
+						wsc.Engine = parser.Engine
+					}
 					wsc.Execute = parser.Execute
 					parser.ParserCloser = wsc
 					if nbhttpConn != nil {
@@ -510,6 +515,11 @@ func (u *Upgrader) Upgrade(w http.ResponseWriter, r *http.Request, responseHeade
 			wsc.isBlockingMod = true
 			getParser()
 			if parser != nil {
+				// the limits and allocators of the engine that serves the
+				// connection apply, as on the poller paths.
+				if parser.Engine != nil {
+					wsc.Engine = parser.Engine
+				}
 				wsc.Execute = parser.Execute
 				parser.ParserCloser = wsc
 				if nbhttpConn != nil {
@@ -523,6 +533,11 @@ func (u *Upgrader) Upgrade(w http.ResponseWriter, r *http.Request, responseHeade
 		wsc.isBlockingMod = true
 		getParser()
 		if parser != nil {
+			// the limits and allocators of the engine that serves the
+			// connection apply, as on the poller paths.
+			if parser.Engine != nil {
+				wsc.Engine = parser.Engine
+			}
 			wsc.Execute = parser.Execute
 			parser.ParserCloser = wsc
 			if nbhttpConn != nil {
